@@ -23,6 +23,8 @@ GAP = 1e-7          # general position: no compared quantity closer than this to
 def main():
     repo, seed, outfile = sys.argv[1], int(sys.argv[2]), sys.argv[3]
     only = sys.argv[4] if len(sys.argv) > 4 else None
+    if only and only.startswith("unit:"):
+        return unit_mode(repo, seed, outfile, only[5:], sys.argv[5] if len(sys.argv) > 5 else "")
     sys.path.insert(0, repo)
     import logging
     logging.disable(logging.CRITICAL)
@@ -310,9 +312,31 @@ def main():
         plan.append(("open-cluster:shape-descriptors[d=3]", obs_gyration, o3, gname, g, None))
         plan.append(("open-cluster:shape-descriptors[d=2]", obs_gyration, o2, gname, g, None))
     plan.append(("open-cluster:participation-ratio", obs_pr, o3, "rotation", g_rotate, None))
+    # (observable, group) pairs that contracts/C07.py now proves by relational execution of the real AST (units of C07_units.py and the
+    # g(r) / neighbour-writer units): not part of the bounded stand-in any more (set C07_BOUNDED_ALL=1 to run them all the same)
+    PROVED = {
+        "g(r)": {"translation", "lattice-shift", "axis-permutation"},
+        "S(q)": {"translation", "lattice-shift", "relabelling"},
+        "N-nearest-neighbour-sets": {"translation", "lattice-shift", "axis-permutation"},
+        "Hessian-spectrum": {"translation", "lattice-shift"},
+        "relaxation-functions": {"translation", "lattice-shift", "axis-permutation"},
+        "tetrahedral-order": {"translation", "lattice-shift"},
+        "pair-entropy-S2": {"translation", "lattice-shift", "axis-permutation"},
+        "|psi_6|": {"translation", "lattice-shift", "relabelling"},
+        "open-cluster:tetrahedral-order": {"translation"},
+        "open-cluster:|psi_6|": {"translation", "relabelling"},
+        "open-cluster:shape-descriptors": {"translation"},
+    }
+
+    def proved(name, gname):
+        if os.environ.get("C07_BOUNDED_ALL"):
+            return False
+        return gname in PROVED.get(name.split("[")[0], ())
     try:
         for name, obs, c, gname, g, pre in plan:
             if only and only not in name and only not in gname:
+                continue
+            if not only and proved(name, gname):
                 continue
             if gname == "dilation":
                 # g(r) values unchanged when coordinates, box and bin width are dilated together
@@ -342,6 +366,376 @@ def main():
                    "checked": sorted({f"{r['observable']} / {r['group']}" for r in results}),
                    "bound": "seeded configurations: N = 16..22 particles, T = 1..2 frames, d = 2,3, two species, orthogonal box with random origin; "
                             "general position enforced (no distance within 1e-7 of a bin edge / cutoff, neighbour gaps > 1e-6); rtol 1e-6"}, f, indent=1)
+
+
+# =====================================================================================================================
+# `unit:<function>/<group>` mode: the replay of the relational units of contracts/C07_units.py.  The relation
+# f(g.x) == g.f(x) on the REAL code with the FULL outputs of the function under contract (complex psi, q_lm and Q_lm, S2 and the
+# particle g(r), divergence and curl, the saved Hessian, every column of the frames), neighbour / weight files held fixed
+# (they are inputs of the function), general cells (tilted where the function allows), seeded trials.
+
+
+def unit_mode(repo, seed, outfile, spec, case):
+    sys.path.insert(0, repo)
+    import logging
+    logging.disable(logging.CRITICAL)
+    import numpy as np
+    import pandas as pd
+
+    from PyMatterSim.reader.reader_utils import SingleSnapshot, Snapshots
+    fname, group = spec.rsplit("/", 1)
+    tmp = tempfile.mkdtemp(prefix="pyvc-c07unit.")
+    rng = np.random.default_rng(7000 + seed)
+    results = []
+    counter = [0]
+
+    def snaps(X):
+        out = []
+        for t in range(X["pos"].shape[0]):
+            L = np.diag(X["H"][t]).copy()
+            bb = np.column_stack([X["lo"], X["lo"] + L])
+            out.append(SingleSnapshot(timestep=t * 10, nparticle=X["pos"].shape[1], particle_type=X["types"].copy(), positions=X["pos"][t].copy(),
+                                      boxlength=L, boxbounds=bb, realbounds=bb.copy(), hmatrix=X["H"][t].copy()))
+        return Snapshots(nsnapshots=len(out), snapshots=out)
+
+    def make(d, N, T, tilt=True, ntypes=2, periodic=None, spread=0.15):
+        L = rng.uniform(5.0, 7.0, size=d)
+        H = np.stack([np.diag(L) for _ in range(T)])          # the same edge lengths in every frame (the classes assert it), a tilt per frame
+        if tilt:
+            for t in range(T):
+                for a in range(d):
+                    for b in range(a):
+                        H[t, a, b] = rng.uniform(-0.3, 0.3) * L[b]
+        lo = rng.uniform(-3.0, 3.0, size=d)
+        frac = rng.uniform(0.0, 1.0, size=(N, d))
+        base = lo + frac @ H[0]
+        pos = np.stack([base + spread * t * rng.normal(size=(N, d)) for t in range(T)])
+        types = (np.arange(N) % ntypes + 1).astype(np.int32)
+        rng.shuffle(types)
+        ppp = np.ones(d, dtype=int) if periodic is None else np.asarray(periodic, dtype=int)
+        nbs = [[sorted(rng.choice([j for j in range(N) if j != i], size=int(rng.integers(2, min(7, N))), replace=False).tolist()) for i in range(N)] for t in range(T)]
+        wts = [[rng.uniform(0.2, 2.0, size=len(r)).tolist() for r in fr] for fr in nbs]
+        return dict(pos=pos, types=types, H=H, lo=lo, ppp=ppp, nbs=nbs, wts=wts, field=rng.normal(size=(N, d)), scal=rng.normal(size=N),
+                    sel=rng.random(N) < 0.6, tfield=rng.normal(size=(N, d, d)), cfield=rng.normal(size=N) + 1j * rng.normal(size=N))
+
+    def minimg(X, t):
+        r = X["pos"][t][None, :, :] - X["pos"][t][:, None, :]
+        m = r @ np.linalg.inv(X["H"][t])
+        r = r - (np.rint(m) * X["ppp"]) @ X["H"][t]
+        return np.sqrt((r ** 2).sum(-1)), m
+
+    def no_ties(X, pairs=None):
+        """away from half-cell ties: no fractional minimum-image coordinate of a pair within 1e-6 of +-1/2 (mod 1)"""
+        for t in range(X["pos"].shape[0]):
+            _, m = minimg(X, t)
+            f = np.abs(np.abs(m - np.rint(m)) - 0.5)
+            if f[:, :, X["ppp"] == 1].size and f[:, :, X["ppp"] == 1].min() < 1e-6:
+                return False
+        return True
+
+    # ---- group elements: X -> X' (and how per-particle outputs map)
+    def g_translation(X, per_frame):
+        T, N, d = X["pos"].shape
+        t = rng.uniform(-4.0, 4.0, size=(T, 1, d)) if per_frame else rng.uniform(-4.0, 4.0, size=(1, 1, d))
+        return dict(X, pos=X["pos"] + t), None
+
+    def g_lattice(X, per_frame):
+        T, N, d = X["pos"].shape
+        n = rng.integers(-2, 3, size=(T if per_frame else 1, N, d)) * X["ppp"]
+        if per_frame:
+            return dict(X, pos=X["pos"] + np.stack([n[t] @ X["H"][t] for t in range(T)])), None
+        return dict(X, pos=X["pos"] + (n[0] @ X["H"][0])[None, :, :]), None
+
+    def g_axes(X, per_frame):
+        d = X["pos"].shape[2]
+        ax = np.roll(np.arange(d), 1) if d == 3 else np.array([1, 0])
+        H = X["H"][:, ax][:, :, ax]
+        return dict(X, pos=X["pos"][:, :, ax], H=H, lo=X["lo"][ax], ppp=X["ppp"][ax], field=X["field"][:, ax],
+                    tfield=X["tfield"][:, ax][:, :, ax]), ("axes", ax)
+
+    def g_relabel(X, per_frame):
+        T, N, d = X["pos"].shape
+        perm = rng.permutation(N)             # new particle a is old particle perm[a]
+        inv = np.argsort(perm)
+        nbs = [[sorted(int(inv[j]) for j in X["nbs"][t][perm[a]]) for a in range(N)] for t in range(T)]
+        wts = [[[w for _, w in sorted(zip([int(inv[j]) for j in X["nbs"][t][perm[a]]], X["wts"][t][perm[a]]))] for a in range(N)] for t in range(T)]
+        return dict(X, pos=X["pos"][:, perm, :], types=X["types"][perm], nbs=nbs, wts=wts, field=X["field"][perm], scal=X["scal"][perm],
+                    sel=X["sel"][perm], tfield=X["tfield"][perm], cfield=X["cfield"][perm]), ("perm", perm)
+
+    GROUPS = {"translation": g_translation, "lattice-shift": g_lattice, "axis-permutation": g_axes, "relabelling": g_relabel}
+
+    def write_nb(X, tag, weights=False):
+        fn = os.path.join(tmp, f"{tag}{counter[0]}.dat")
+        counter[0] += 1
+        with open(fn, "w") as f:
+            for t in range(len(X["nbs"])):
+                f.write("id     cn     neighborlist\n" if not weights else "id     cn     weights\n")
+                for i, row in enumerate(X["nbs"][t]):
+                    vals = [str(j + 1) for j in row] if not weights else ["%.10f" % w for w in X["wts"][t][i]]
+                    f.write("%d %d %s\n" % (i + 1, len(row), " ".join(vals)))
+        return fn
+
+    # ---- the functions under contract: f(X) -> dict name -> (kind, array); kind: "global" | "particle:<axis>" (axis of the particle index)
+    def f_boo2d(X):
+        from PyMatterSim.static.boo import boo_2d
+        weighted = case.startswith("weighted")
+        b = boo_2d(snaps(X), l=X.get("l", 6), neighborfile=write_nb(X, "nb"), weightsfile=write_nb(X, "w", True) if weighted else "", ppp=X["ppp"], Nmax=10)
+        return {"psi": ("particle:1", np.asarray(b.ParticlePhi))}
+
+    def f_boo3d(X):
+        from PyMatterSim.static.boo import boo_3d
+        weighted = case == "weighted"
+        b = boo_3d(snaps(X), l=X.get("l", 6), neighborfile=write_nb(X, "nb"), weightsfile=write_nb(X, "w", True) if weighted else None, ppp=X["ppp"], Nmax=10)
+        q, Q = b.qlm_Qlm()
+        return {"q_lm": ("particle:1", np.asarray(q)), "Q_lm": ("particle:1", np.asarray(Q))}
+
+    def f_tetra(X):
+        from PyMatterSim.static.geometric import q8_tetrahedral
+        return {"q_tetra": ("particle:1", np.asarray(q8_tetrahedral(snaps(X), ppp=X["ppp"])))}
+
+    def f_s2(X):
+        from PyMatterSim.static.pairentropy import S2
+        K = int(X["types"].max())
+        sig = np.array([[0.25 + 0.05 * (a + b) for b in range(K)] for a in range(K)])
+        s = S2(snaps(X), sigmas=sig, ppp=X["ppp"], rdelta=0.05, ndelta=40)
+        cwd = os.getcwd()
+        os.chdir(tmp)
+        try:
+            if case.endswith("savegr"):
+                a, g = s.particle_s2(savegr=True, outputfile=f"s2_{counter[0]}.npy")
+                counter[0] += 1
+                return {"S2": ("particle:1", np.asarray(a)), "particle_gr": ("particle:1", np.asarray(g))}
+            return {"S2": ("particle:1", np.asarray(s.particle_s2()))}
+        finally:
+            os.chdir(cwd)
+
+    def f_gyration(X):
+        from PyMatterSim.static.shape import gyration_tensor
+        return {"descriptors": ("global", np.array([float(np.real(v)) for v in gyration_tensor(X["pos"][0].copy())]))}
+
+    def f_divcurl(X):
+        from PyMatterSim.static.vector import divergence_curl
+        one = dict(X, nbs=X["nbs"][:1], wts=X["wts"][:1])
+        r = divergence_curl(snaps(X).snapshots[0], X["field"].copy(), X["ppp"], write_nb(one, "nb"))
+        if X["pos"].shape[2] == 3:
+            return {"divergence": ("particle:0", np.asarray(r[0])), "curl": ("pvector:0", np.asarray(r[1]))}
+        return {"divergence": ("particle:0", np.asarray(r))}
+
+    def f_condgr(X):
+        from PyMatterSim.static.gr import conditional_gr
+        kind = case.split("/")[1] if "/" in case else "float"
+        ct = None
+        if kind == "bool":
+            A_ = X["sel"].copy()
+        elif kind.startswith("species"):
+            A_ = X["types"] == int(kind[-1])
+        elif kind == "alltrue":
+            A_ = np.ones(len(X["types"]), dtype=bool)
+        elif kind == "ones":
+            A_ = np.ones(len(X["types"]))
+        elif kind in ("complex", "complex64"):
+            A_ = X["cfield"].astype(np.complex64 if kind == "complex64" else np.complex128)
+        elif kind in ("vector", "cvector"):
+            A_, ct = (X["field"].copy() if kind == "vector" else X["field"] + 1j * X["field"][:, ::-1]), "vector"
+        elif kind == "tensor":
+            A_, ct = X["tfield"].copy(), "tensor"
+        else:
+            A_ = X["scal"].copy()
+        df = conditional_gr(snaps(X).snapshots[0], A_, conditiontype=ct, ppp=X["ppp"], rdelta=0.25)
+        return {c: ("global", np.asarray(df[c].values)) for c in df.columns}
+
+    def f_relax(X):
+        from PyMatterSim.dynamic.dynamics import Dynamics
+        K = int(X["types"].max())
+        parts = case.split("/") if case else ["d=2", "slow", "xu", "nocage", "all"]
+        fast, xonly, cage, cond = parts[1] == "fast", parts[2] == "x-only", parts[3] == "cage", parts[4] == "condition"
+        kw = dict(dt=0.002, ppp=X["ppp"] if xonly else np.zeros_like(X["ppp"]), diameters={k + 1: 1.0 + 0.1 * k for k in range(K)}, a=0.3,
+                  cal_type="fast" if fast else "slow")
+        if cage:
+            kw["neighborfile"] = write_nb(X, "nb")
+        dyn = Dynamics(xu_snapshots=None if xonly else snaps(X), x_snapshots=snaps(X) if xonly else None, **kw)
+        T, N, _ = X["pos"].shape
+        c = np.tile(X["sel"], (T, 1)) if cond else None
+        df = dyn.relaxation(qconst=2 * np.pi, condition=c)
+        return {col: ("global", np.asarray(df[col].values)) for col in df.columns}
+
+    def f_hessian(X):
+        from PyMatterSim.static.hessians import HessianMatrix, InteractionParams, ModelName
+        K = int(X["types"].max())
+        masses = {k + 1: 1.0 + 1.3 * k for k in range(K)}
+        eps = np.array([[1.0 + 0.2 * (a + b) for b in range(K)] for a in range(K)])
+        sig = np.array([[1.0 + 0.1 * (a + b) for b in range(K)] for a in range(K)])
+        h = HessianMatrix(snapshot=snaps(X).snapshots[0], masses=masses, epsilons=eps, sigmas=sig, r_cuts=1.5 * sig, ppp=X["ppp"], shiftpotential=True)
+        pref = os.path.join(tmp, f"h{counter[0]}")
+        counter[0] += 1
+        h.diagonalize_hessian(interaction_params=InteractionParams(model_name=ModelName.inverse_power_law, ipl_n=10, ipl_A=1.0),
+                              saveevecs=False, savehessian=True, outputfile=pref)
+        M = np.load(pref + ".hessianmatrix.npy")
+        om = pd.read_csv(pref + ".omega_PR.csv")["omega"].values
+        return {"matrix-handed-to-eigh": ("hessian", M), "spectrum": ("spectrum", np.sort(np.where(om > 0, om ** 2, om)))}
+
+    RCUT, NNEAR = 1.9, 4
+
+    def read_rows(fn, T, N):
+        with open(fn) as f:
+            lines = f.read().split("\n")
+        k, out = 0, []
+        for t in range(T):
+            k += 1
+            rows = {}
+            for _ in range(N):
+                w = lines[k].split()
+                k += 1
+                rows[int(w[0]) - 1] = sorted(int(x) - 1 for x in w[2:2 + int(w[1])])
+            out.append([rows[i] for i in range(N)])
+        return out
+
+    def f_writer(X, which):
+        from PyMatterSim.neighbors.calculate_neighbors import Nnearests, cutoffneighbors
+        fn = os.path.join(tmp, f"wr{counter[0]}.dat")
+        counter[0] += 1
+        if which == "Nnearests":
+            Nnearests(snaps(X), N=NNEAR, ppp=X["ppp"], fnfile=fn)
+        else:
+            cutoffneighbors(snaps(X), r_cut=RCUT, ppp=X["ppp"], fnfile=fn)
+        T, N, _ = X["pos"].shape
+        return {"neighbour-sets": ("sets", read_rows(fn, T, N))}
+
+    def f_sq(X, meth):
+        from PyMatterSim.static.sq import sq
+        pref = os.path.join(tmp, f"sq{counter[0]}.csv")
+        counter[0] += 1
+        o = sq(snaps(X), qrange=3.0, onlypositive=False, saveqvectors=True, outputfile=pref)
+        res = getattr(o, meth)()
+        tab = pd.read_csv(pref[:-4] + "_qvectors.csv")
+        out = {"per-vector:" + c: ("global", tab[c].values) for c in tab.columns}
+        out.update({"returned:" + c: ("global", res[c].values) for c in res.columns})
+        return out
+
+    FUNCS = {"sq.unary": (lambda X: f_sq(X, "unary"), None, True), "sq.binary": (lambda X: f_sq(X, "binary"), None, True),
+             "sq.ternary": (lambda X: f_sq(X, "ternary"), None, True),
+             "cutoffneighbors": (lambda X: f_writer(X, "cutoffneighbors"), None, True), "Nnearests": (lambda X: f_writer(X, "Nnearests"), None, True),
+             "boo_2d.lthorder": (f_boo2d, 2, True), "boo_3d.qlm_Qlm": (f_boo3d, 3, True), "q8_tetrahedral": (f_tetra, 3, True),
+             "S2.particle_s2": (f_s2, None, True), "gyration_tensor": (f_gyration, None, False), "divergence_curl": (f_divcurl, None, False),
+             "conditional_gr": (f_condgr, None, False), "Dynamics.relaxation": (f_relax, None, False),
+             "HessianMatrix.diagonalize_hessian": (f_hessian, None, False)}
+
+    def pre(fname, X):
+        """general position for the thresholds the function uses (bin edges, cutoffs, nearest-neighbour ties)"""
+        T, N, d = X["pos"].shape
+        if fname == "q8_tetrahedral":
+            for t in range(T):
+                dm = np.sort(minimg(X, t)[0], axis=1)
+                if (dm[:, 5] - dm[:, 4]).min() < 1e-6:
+                    return False
+        if fname == "cutoffneighbors":
+            for t in range(T):
+                if np.abs(minimg(X, t)[0] - RCUT).min() < 1e-6:
+                    return False
+        if fname == "Nnearests":
+            for t in range(T):
+                dm = np.sort(minimg(X, t)[0], axis=1)
+                if (dm[:, NNEAR + 1] - dm[:, NNEAR]).min() < 1e-6:
+                    return False
+        if fname == "conditional_gr":
+            edges = np.arange(0, int(np.diag(X["H"][0]).min() / 2 / 0.25) + 1) * 0.25
+            dm = minimg(X, 0)[0][np.triu_indices(N, 1)]
+            if np.abs(dm[:, None] - edges[None, :]).min() < 1e-7:
+                return False
+        if fname == "S2.particle_s2":
+            dm = minimg(X, 0)[0][np.triu_indices(N, 1)]
+            if np.abs(dm - (40 - 0.5) * 0.05).min() < 1e-7:
+                return False
+        if fname == "HessianMatrix.diagonalize_hessian":
+            K = int(X["types"].max())
+            sig = np.array([[1.0 + 0.1 * (a + b) for b in range(K)] for a in range(K)])
+            iu = np.triu_indices(N, 1)
+            dm = minimg(X, 0)[0][iu]
+            rc = (1.5 * sig)[X["types"][iu[0]] - 1, X["types"][iu[1]] - 1]
+            if np.abs(dm - rc).min() < 1e-6 or dm.min() < 0.5:
+                return False
+        if fname == "Dynamics.relaxation":
+            for a, b in itertools.combinations(range(T), 2):
+                dr = np.sqrt(((X["pos"][b] - X["pos"][a]) ** 2).sum(-1))
+                if np.abs(dr - 0.3).min() < 1e-7 or np.abs(dr - 0.33).min() < 1e-7:
+                    return False
+        return True
+
+    def cmp_out(o1, o2, how):
+        for name in o1:
+            kind, a = o1[name]
+            b = o2[name][1]
+            if kind == "sets":
+                for t in range(len(a)):
+                    for q in range(len(a[t])):
+                        want = a[t][q]
+                        if how is not None and how[0] == "perm":
+                            inv = np.argsort(how[1])
+                            want = sorted(int(inv[j]) for j in a[t][int(how[1][q])])
+                        if b[t][q] != want:
+                            return f"{name}: frame {t}, particle {q}: {b[t][q]} after the transformation, expected {want}"
+                continue
+            a, b = np.asarray(a), np.asarray(b)
+            if how is not None and how[0] == "perm" and kind.startswith(("particle", "pvector")):
+                a = np.take(a, how[1], axis=int(kind.split(":")[1]))
+            if how is not None and how[0] == "perm" and kind == "hessian":
+                d = a.shape[0] // len(how[1])
+                idx = (how[1][:, None] * d + np.arange(d)[None, :]).ravel()
+                a = a[np.ix_(idx, idx)]
+            if how is not None and how[0] == "axes" and kind.startswith("pvector"):
+                a = a[:, how[1]]
+            if how is not None and how[0] == "axes" and kind == "hessian":
+                d = len(how[1])
+                idx = (np.arange(a.shape[0] // d)[:, None] * d + how[1][None, :]).ravel()
+                a = a[np.ix_(idx, idx)]
+            if a.shape != b.shape:
+                return f"{name}: shapes {a.shape} vs {b.shape}"
+            scale = max(1.0, float(np.nanmax(np.abs(a)))) if kind in ("hessian", "spectrum") else 1.0
+            ok = np.isclose(b, a, rtol=1e-7, atol=(2.1e-6 if name.startswith(("per-vector:", "returned:")) else 1e-9 * scale), equal_nan=True)
+            if not ok.all():
+                k = tuple(int(x) for x in np.argwhere(~ok)[0])
+                return f"{name}{list(k)}: {b[k]!r} after the transformation, {a[k]!r} before (max |diff| {np.nanmax(np.abs(b - a)):.3g})"
+        return None
+
+    try:
+        f, dfix, per_frame = FUNCS[fname]
+        g = GROUPS[group]
+        dims = [dfix] if dfix else ([int(case[2])] if case[:2] == "d=" else [2, 3])
+        if fname == "conditional_gr" and group == "axis-permutation" and "vector" in case:
+            dims = dims      # the field components are permuted with the axes
+        for trial in range(6):
+            for d in dims:
+                N = int(rng.integers(9, 15)) if fname != "HessianMatrix.diagonalize_hessian" else int(rng.integers(6, 10))
+                T = 1 if fname in ("gyration_tensor", "divergence_curl", "conditional_gr", "HessianMatrix.diagonalize_hessian") else int(rng.integers(2, 4))
+                tilt = group in ("translation", "lattice-shift", "relabelling") and trial % 2 == 1 and not fname.startswith("sq.")
+                ntypes = {"sq.unary": 1, "sq.ternary": 3}.get(fname, 2)
+                for attempt in range(8):
+                    X = make(d, N, T, tilt=tilt, ntypes=ntypes, periodic=(None if (trial % 3 or fname.startswith("sq.")) else ([1] + [0] * (d - 1))), spread=0.12)
+                    if fname == "gyration_tensor" and group == "lattice-shift":
+                        break
+                    X2, how = g(X, per_frame)
+                    if pre(fname, X) and pre(fname, X2) and (group != "lattice-shift" or no_ties(X)):
+                        break
+                else:
+                    continue
+                if fname == "gyration_tensor" and group == "lattice-shift":
+                    continue
+                try:
+                    o1, o2 = f(X), f(X2)
+                    bad = cmp_out(o1, o2, how)
+                except Exception as e:
+                    bad = f"raises {type(e).__name__}: {e}"
+                results.append({"observable": fname, "group": group, "failed": bad is not None, "detail": bad,
+                                "inputs": None if bad is None else {"case": case, "d": d, "N": N, "T": T, "hmatrix": X["H"][0].tolist(), "ppp": X["ppp"].tolist(),
+                                                                   "positions[0][:4]": X["pos"][0][:4].tolist(), "neighbours[0][:3]": X["nbs"][0][:3]}})
+    except Exception:
+        results.append({"observable": fname, "group": group, "failed": False, "error": traceback.format_exc()[-1500:]})
+    finally:
+        shutil.rmtree(tmp, ignore_errors=True)
+    with open(outfile, "w") as fo:
+        json.dump({"relations_checked": len([r for r in results if "error" not in r]), "failed": [r for r in results if r.get("failed")],
+                   "errors": [r for r in results if r.get("error")], "checked": sorted({f"{r['observable']} / {r['group']}" for r in results}),
+                   "bound": "unit mode: 6 seeded trials per dimension, N = 6..14, T = 1..3, general (tilted) cells, mixed masks"}, fo, indent=1)
 
 
 if __name__ == "__main__":
